@@ -22,9 +22,9 @@ const (
 
 type GenOpts struct {
 	Mode     Mode
-	MaxList  int  // upper bound for "big" list lengths and long texts (<= prefix maximum is enforced separately)
-	BigProb  int  // 1-in-N chance that a list/text takes a big length (0 = never)
-	NoAbsent bool // Arbitrary mode without absent parts (for checks that need must-succeed encodes)
+	MaxList  int    // upper bound for "big" list lengths and long texts (<= prefix maximum is enforced separately)
+	BigProb  int    // 1-in-N chance that a list/text takes a big length (0 = never)
+	NoAbsent bool   // Arbitrary mode without absent parts (for checks that need must-succeed encodes)
 	ForceKey string // if non-empty: the top-level type's dynamic part uses this registered key
 }
 
